@@ -68,6 +68,16 @@ def sentinel_scenarios():
              sentinel="working set strictly inside the features, last features active (fixpoint scores)"),
         dict(base, solver="ProxNewton", datafit="Logistic", penalty="L1", fit_intercept=True, strategy="fixpoint",
              storage="csc", data="big", p0="10", max_iter=5, sentinel="same for ProxNewton / CSC"),
+        # the inner stopping test (every 10 epochs) scores the working set with constants restricted to it
+        dict(base, solver="MultiTaskBCD", datafit="QuadraticMultiTask", penalty="L2_1", fit_intercept=False,
+             strategy="fixpoint", storage="dense", data="big", p0="2", max_iter=3, max_epochs=25, alpha="0.01",
+             sentinel="fixpoint scores of a working set strictly inside the features, >= 11 inner epochs (multitask)"),
+        dict(base, solver="GroupBCD", datafit="QuadraticGroup", penalty="WeightedGroupL2", fit_intercept=True,
+             strategy="fixpoint", storage="csc", data="big", p0="2", max_iter=3, max_epochs=25, alpha="0.01",
+             sentinel="same for GroupBCD"),
+        dict(base, solver="AndersonCD", datafit="Quadratic", penalty="WeightedL1", fit_intercept=True,
+             strategy="fixpoint", storage="csc", data="big", p0="2", max_iter=3, max_epochs=25, alpha="0.01",
+             sentinel="same for AndersonCD"),
     ]
 
 
